@@ -21,6 +21,8 @@ THEOREMS = [
     "Mpc.Sym.C04_stream_is_whole",
     "Mpc.streamGarble_persistent",
     "Mpc.Sym.C04_both_labels_leak",
+    "Mpc.Sym.C04_ot_range_guard",
+    "Mpc.Sym.C04_ot_range_unguarded_leaks",
 ]
 
 # Label-carrying hand-overs of the garbler side to the connection / the OT
@@ -71,6 +73,17 @@ def run(ctx):
         ops, out, meta = ctx.run_hx("ideal", 60 if quick else 600, binary=hx2, tag="-c02tie")
         ctx.correspond("shared garbling/protocol definitions vs real sessions (byte-exact transcripts)", ops, out)
     if ctx.build_hx():
+        # deviating evaluator: every OT request other than the evaluator's own wires must be refused (and the Lean guard
+        # Circuit2.acceptsOtRange must give the same verdict)
+        ops, out, meta = ctx.run_hx("range", 40 if quick else 600, timeout=1200, tag="-range")
+        ctx.absorb_meta(meta, prefix="range_")
+        ctx.correspond("garbler's verdict on deviating OT requests (offset, count) vs Circuit2.acceptsOtRange", ops, out)
+        for line in open(ops, errors="replace"):
+            ctx.distinct.add(hashlib.sha1(line.encode()).digest())
+        rc = ctx.coverage.get("counters", {})
+        ctx.oblige("generator reached OT requests that reach into the garbler's own wires, with the correct end offset+count too",
+                   rc.get("range_range_reaching_into_garbler_wires", 0) > 0 and rc.get("range_range_deviating_with_correct_end", 0) > 0,
+                   str({k: v for k, v in rc.items() if k.startswith("range_")}))
         plan = [("whole", 120 if quick else 1500, ()), ("stream", 40 if quick else 400, ()),
                 ("stream", 6 if quick else 60, ("-extra", "long")), ("sha2pc", 4 if quick else 24, ())]
         for mode, n, extra in plan:
